@@ -64,6 +64,32 @@ def check(run):
                 big.append([case("Insert", s0, sp, i, 0, 41)])
             big.append([case("Grow", s0, sp, 0, 5)])
     plans += big if not run.quick() else run.rng.sample(big, 1200)
+    # inputs that are neighbouring views of one backing array (a result that merely re-slices them is not "new")
+    for n in range(0, 5):
+        for m in range(0, 4):
+            for sp in (0, 2):
+                plans.append([dict(case("Concat", range(1, n + 1), sp, t=range(51, 51 + m)), adj=True)])
+    # other element types: floats with negative zero (code -1000), element types that cannot be compared (slices, structs holding
+    # slices), strings with the empty string
+    for ty in ("float", "slice", "struct", "string"):
+        vals = [0, 1, 7] + ([-1000] if ty == "float" else [])
+        for v in vals:
+            for k in (0, 1, 2, 5, 33):
+                plans.append([dict(case("Repeat", [], k=k, v=v), ty=ty)])
+            for n in (0, 1, 3, 9):
+                plans.append([dict(case("Fill", [2] * n, spare=1, v=v), ty=ty)])
+        for n in (0, 1, 2, 5, 18):
+            s0 = [(j % 4) for j in range(n)] if ty != "float" else [(-1000 if j % 3 == 0 else j) for j in range(n)]
+            plans.append([dict(case("Reverse", s0), ty=ty)])
+            plans.append([dict(case("Clone", s0, 2), ty=ty)])
+            plans.append([dict(case("Concat", s0, 1, t=[3, 0, 2][: n % 4]), ty=ty)])
+            plans.append([dict(case("Grow", s0, 2, 0, 3), ty=ty)])
+            for i in sorted({0, n // 2, n}):
+                plans.append([dict(case("Insert", s0, 1, i, 0, 0), ty=ty)])
+                plans.append([dict(case("InsertSlice", s0, 1, i, 2, 0, [0, 3]), ty=ty)])
+                if i < n:
+                    plans.append([dict(case("Remove", s0, 1, i), ty=ty)])
+                    plans.append([dict(case("RemoveSlice", s0, 1, i, min(2, n - i)), ty=ty)])
     segs = execute(run, plans)
     if len(segs) != len(plans):
         raise Inconclusive("driver returned %d events for %d plans" % (len(segs), len(plans)))
@@ -76,7 +102,7 @@ def check(run):
                         "arrays with 60-1000 spare elements (every position and count; quick: 1200 sampled); "
                         "non-trivial = non-empty input or count" % (ml, msp))
     run.cov["samples"] = [segs[7][0], segs[-1][0]]
-    run.assumptions += ["element type int", "GoSlice growth policy: any capacity >= needed (contents do not depend on it)"]
+    run.assumptions += ["element types int, float64 (negative zero included), []int, a struct holding a slice, string", "GoSlice growth policy: any capacity >= needed (contents do not depend on it)"]
     return finish(run, reexec=lambda rej: execute(run, [rej["plan"]])[0])
 
 
